@@ -400,7 +400,19 @@ def bitfield_mutate(draw, i):
     bits.frombytes(data)
     hot = [k for k, f in enumerate(fields) if f[0] in HOT_FIELDS]
     chosen = []
-    for _ in range(draw(st.integers(1, 3))):
+    forced = {}
+    if draw(st.sampled_from([False, False, False, True])):
+        # paired mutation of the two offsets that link adjacent data units: the earlier unit's next_parse_offset
+        # (zero / off by a little / invalid small value) together with the later unit's previous_parse_offset
+        nxt = [k for k, f in enumerate(fields) if f[0] == "next_parse_offset"]
+        prv = [k for k, f in enumerate(fields) if f[0] == "previous_parse_offset"]
+        if len(nxt) >= 2 and len(prv) >= 2:
+            j = draw(st.integers(0, len(nxt) - 2))
+            a, b = nxt[j], prv[j + 1]
+            forced[a] = draw(st.sampled_from([0, 0, fields[a][3], fields[a][3] + 1, 5, 13]))
+            forced[b] = draw(st.sampled_from([0, fields[b][3] + 1, fields[b][3] - 1, fields[b][3], 1 << 20]))
+            chosen += [a, b]
+    for _ in range(draw(st.integers(0 if chosen else 1, 2 if chosen else 3))):
         pool = hot if (hot and draw(st.integers(0, 2)) != 0) else list(range(len(fields)))
         chosen.append(pool[draw(st.integers(0, len(pool) - 1))])
     ops = []
@@ -412,7 +424,7 @@ def bitfield_mutate(draw, i):
             new = not value
         elif kind == "fixed":
             n = end - start
-            new = draw(new_value(value, name)) & ((1 << n) - 1)
+            new = (forced[k] if k in forced else draw(new_value(value, name))) & ((1 << n) - 1)
             code = ba(format(new, "0%db" % n))
         elif kind == "uint":
             new = max(0, draw(_new_value(value, name)))
